@@ -10,6 +10,7 @@ package main
 //	pl ... same fields (reads longer than c08Small: the model replays the real path instead of running the DP)
 //	cons <A> <QA> <B> <QB> <path csv>
 //	fm <side 1=left 0=right> <gi> <si> <A> <QA> <B> <QB>   one fill + backtracking, both flat matrices compared
+//	bt <la> <lb> <cap> <flat path matrix csv>   _Backtracking alone on an arbitrary (valid) path matrix, path buffer of capacity cap
 //
 // Exec appends, after " | ", the data the Lean model takes as parameters (§3.4 of DESIGN.md: floats are
 // never modelled): the integer gap penalty, the 94-entry mismatch quality adjustment table and the
@@ -500,6 +501,67 @@ func (c08) Gen(rng *rand.Rand, tier string, emit func(string)) {
 	if tier == "thorough" {
 		n, nbig, ncons, nfm = 9000, 500, 2500, 2500
 	}
+	// _Backtracking alone: valid path matrices of every shape, among them the alternating ones that fill
+	// the 2*(la+lb) cells of the path buffer completely; buffers too small (regrown), exact, larger
+	nbt := 250
+	if tier == "thorough" {
+		nbt = 2500
+	}
+	for i := 0; i < nbt; i++ {
+		la, lb := 1+rng.Intn(9), 1+rng.Intn(9)
+		if i < 40 {
+			la, lb = 1+i%5, 1+(i/5)%5
+		}
+		mode := rng.Intn(4)
+		pm := make([]int, (la+1)*(lb+1))
+		for j := 0; j <= lb; j++ {
+			for ii := 0; ii <= la; ii++ {
+				v := 0
+				switch {
+				case ii == 0 && j == 0:
+					v = []int{0, 7, -7}[rng.Intn(3)] // never read
+				case ii == 0:
+					v = 1
+					if mode == 3 && rng.Intn(3) == 0 {
+						v = 1 + rng.Intn(j)
+					}
+				case j == 0:
+					v = -1
+					if mode == 3 && rng.Intn(3) == 0 {
+						v = -(1 + rng.Intn(ii))
+					}
+				case mode == 0: // alternate single-base runs of A and of B: the longest possible path
+					if (ii+j)%2 == 0 {
+						v = 1
+					} else {
+						v = -1
+					}
+				case mode == 1:
+					if (ii+j)%2 == 0 {
+						v = -1
+					} else {
+						v = 1
+					}
+				default:
+					switch rng.Intn(4) {
+					case 0:
+						v = 1
+						if mode == 3 {
+							v = 1 + rng.Intn(j)
+						}
+					case 1:
+						v = -1
+						if mode == 3 {
+							v = -(1 + rng.Intn(ii))
+						}
+					}
+				}
+				pm[j*(la+1)+ii] = v
+			}
+		}
+		cp := []int{0, 1, la + lb, 2*(la+lb) - 1, 2 * (la + lb), 2*(la+lb) + 1, 2*(la+lb) + 9, 300}[rng.Intn(8)]
+		emit(fmt.Sprintf("bt %d %d %d %s", la, lb, cp, strings.ReplaceAll(c08Ints(pm), " ", ",")))
+	}
 	for i := 0; i < nfm; i++ {
 		la, lb := 1+rng.Intn(14), 1+rng.Intn(14)
 		if i%5 == 0 {
@@ -847,6 +909,46 @@ func c08Parse(c string) (*c08Case, bool) {
 		}
 		cs.side, cs.gi, cs.si = v[0], v[1], v[2]
 		return cs, true
+	case "bt":
+		if len(f) != 5 {
+			return nil, false
+		}
+		var v [3]int
+		for i := 0; i < 3; i++ {
+			x, err := strconv.Atoi(f[1+i])
+			if err != nil || x < 0 || x > 400 {
+				return nil, false
+			}
+			v[i] = x
+		}
+		if v[0] < 1 || v[1] < 1 || v[0] > 20 || v[1] > 20 {
+			return nil, false
+		}
+		for _, w := range strings.Split(f[4], ",") {
+			x, err := strconv.Atoi(w)
+			if err != nil {
+				return nil, false
+			}
+			cs.path = append(cs.path, x)
+		}
+		la, lb := v[0], v[1]
+		if len(cs.path) != (la+1)*(lb+1) {
+			return nil, false
+		}
+		// valid: every step stays inside the matrix (the real code would read another cell, not panic)
+		for j := 0; j <= lb; j++ {
+			for i := 0; i <= la; i++ {
+				if i == 0 && j == 0 {
+					continue
+				}
+				st := cs.path[j*(la+1)+i]
+				if (st == 0 && (i == 0 || j == 0)) || st > j || -st > i {
+					return nil, false
+				}
+			}
+		}
+		cs.delta, cs.gi, cs.si = la, lb, v[2]
+		return cs, true
 	case "cons":
 		if len(f) != 6 || !hexes(f[1:5]) {
 			return nil, false
@@ -958,6 +1060,27 @@ func (c08) Exec(c string) (string, []Fail) {
 	adj := c08Adj()
 	var fails []Fail
 	addf := func(sig, format string, a ...any) { fails = append(fails, Fail{sig, fmt.Sprintf(format, a...)}) }
+
+	if cs.op == "bt" {
+		stat("op:bt")
+		la, lb, cp := cs.delta, cs.gi, cs.si
+		var path []int
+		res := guardT(5*time.Second, func() string {
+			path = obialign.VerifBacktrack(cs.path, la, lb, cp, 4242)
+			return "ok"
+		})
+		if res != "ok" {
+			addf("backtrack."+res, "_Backtracking %s on a valid path matrix (la=%d lb=%d, path buffer of %d cells)", res, la, lb, cp)
+			return res, fails
+		}
+		if !c08Consumes(path, la, lb) {
+			addf("backtrack.consumes", "path %s does not consume (%d, %d)", c08PathStr(path), la, lb)
+		}
+		if len(path) == 2*(la+lb) {
+			stat("bt:buffer-full")
+		}
+		return "p=" + c08PathStr(path), fails
+	}
 
 	if cs.op == "cons" {
 		stat("op:cons")
